@@ -6,6 +6,7 @@ import (
 	"bytes"
 	"encoding/json"
 	"fmt"
+	"github.com/ochinchina/sipproxy/vrt/vnet"
 	"runtime/metrics"
 	"strings"
 )
@@ -49,7 +50,8 @@ type c08Case struct {
 	A         int    `json:"a"`
 	B         int    `json:"b"`
 	Name      string `json:"name,omitempty"`
-	NoRecv    bool   `json:"no_received,omitempty"` // listener configured with no-received: true
+	NoRecv    bool   `json:"no_received,omitempty"`         // listener configured with no-received: true
+	After     bool   `json:"after_valid_request,omitempty"` // tcp: the hostile bytes follow a valid request on the same connection, whose response arrives afterwards
 }
 
 var c08Alphabet = []byte{0, '\r', '\n', ' ', ':', ';', ',', '<', '>', '[', ']', '%', '@', '=', '"', '/', '-', 0xff, '0', '9'}
@@ -145,11 +147,17 @@ func c08Subs() []c08Sub {
 	for _, v := range []string{"", ",", ",,", "SIP/2.0/UDP", "SIP/2.0/UDP ;", "SIP/2.0/UDP a;branch", "SIP/2.0/UDP a;=", "/ a", "SIP/2.0/UDP a;rport=99999999999;received=", "SIP/2.0/UDP a;received=[", "SIP/2.0/UDP a,", "SIP/2.0/TCP [;branch=z9hG4bKx", "SIP/2.0/TCP [a;branch=z9hG4bKx", "SIP/2.0/TCP a;received=[;branch=z9hG4bKx", "SIP/2.0/TCP a;received=[x;branch=z9hG4bKx"} {
 		add("via="+clipName(v), c08SetHdr("via", v))
 	}
-	add("status=000", c08Start(func(s string) string { return strings.Replace(s, "SIP/2.0 200", "SIP/2.0 000", 1) }))
-	add("status=99", c08Start(func(s string) string { return strings.Replace(s, "SIP/2.0 200", "SIP/2.0 99", 1) }))
-	add("status=700", c08Start(func(s string) string { return strings.Replace(s, "SIP/2.0 200", "SIP/2.0 700", 1) }))
-	add("status=-1", c08Start(func(s string) string { return strings.Replace(s, "SIP/2.0 200", "SIP/2.0 -1", 1) }))
-	add("status=huge", c08Start(func(s string) string { return strings.Replace(s, "SIP/2.0 200", "SIP/2.0 99999999999999999999", 1) }))
+	for _, code := range []string{"000", "99", "700", "-1", "99999999999999999999", "-100", "-486", "-2147483648", "-9223372036854775808", "999", "1000", "65536", "2147483647", "+200", "0x1f4", "", "2 00"} {
+		code := code
+		add("status="+code, c08Start(func(s string) string {
+			if !strings.HasPrefix(s, "SIP/2.0 ") {
+				return s
+			}
+			f := strings.SplitN(s, " ", 3)
+			f[1] = code
+			return strings.Join(f, " ")
+		}))
+	}
 	add("status-no-reason", c08Start(func(s string) string { return strings.Replace(s, "SIP/2.0 200 OK", "SIP/2.0 200", 1) }))
 	add("ruri=sip:", c08Start(func(s string) string { return strings.Replace(s, "sip:bob@svc.example.com", "sip:", 1) }))
 	add("ruri=<>", c08Start(func(s string) string { return strings.Replace(s, "sip:bob@svc.example.com", "<>", 1) }))
@@ -285,6 +293,19 @@ func c08Eval(cs c08Case, hostile []byte) (string, string) {
 	pre := MsgSpec{Method: "OPTIONS", RURI: "sip:x@foreign.example.net", Vias: []string{"SIP/2.0/UDP 127.0.2.1:5070;branch=z9hG4bKpre"}, From: "<sip:nh@nh.example.net>;tag=p", To: "<sip:x@nomatch.example.org>", CallID: "pre", CSeq: "1 OPTIONS"}.Build()
 	w.SendUDP("127.0.2.1:5070", "127.0.0.1:5060", pre.Render())
 	w.Observe()
+	var relayed *vnet.Packet
+	if cs.After && cs.Transport == "tcp" {
+		// a valid request on the connection first: its transaction is bound to this connection
+		c := w.Client("h", "127.0.0.9", "127.0.0.1:5062")
+		first := MsgSpec{Method: "INVITE", RURI: "sip:bob@svc.example.com", Vias: []string{"SIP/2.0/TCP 127.0.0.9:5060;branch=z9hG4bKfirst"}, From: "<sip:f@ua.example.net>;tag=ff", To: "<sip:bob@svc.example.com>", CallID: "first", CSeq: "1 INVITE"}.Build()
+		w.SendTCP(c, first.Render())
+		for _, p := range w.Observe().Pkts {
+			if bytes.Contains(p.Data, []byte("Call-ID: first")) {
+				p := p
+				relayed = &p
+			}
+		}
+	}
 	before := allocatedBytes()
 	var conn interface{ ClosedByPeer() bool }
 	if cs.Transport == "tcp" {
@@ -314,6 +335,20 @@ func c08Eval(cs c08Case, hostile []byte) (string, string) {
 		return "allocation-out-of-proportion", desc(fmt.Sprintf("%d bytes allocated while handling %d received bytes (bound %d)", after-before, len(hostile), limit))
 	}
 	_ = conn
+	if relayed != nil {
+		// the backend now answers the request that preceded the hostile bytes
+		if rm, err := ReadWire(relayed.Data); err == nil {
+			if relayed.Proto == "udp" {
+				w.SendUDP(relayed.To, relayed.From, ResponseTo(rm, 200, "bt").Render())
+			} else if acc := w.acc[relayed.To]; len(acc) > 0 {
+				w.SendTCP(acc[len(acc)-1], ResponseTo(rm, 200, "bt").Render())
+			}
+			w.Observe()
+			if vd := w.S.Verdict(); vd != "" {
+				return "crash", desc("when the response to the request that preceded the hostile bytes on the same connection arrived: " + vd + "\n" + w.S.CrashDetail())
+			}
+		}
+	}
 	// the proxy keeps serving: a sentinel request is relayed to a backend
 	sent := MsgSpec{Method: "OPTIONS", RURI: "sip:bob@svc.example.com", Vias: []string{"SIP/2.0/UDP 127.0.0.8:5060;branch=z9hG4bKsentinel"}, From: "<sip:s@ua.example.net>;tag=s", To: "<sip:bob@svc.example.com>", CallID: "sentinel", CSeq: "1 OPTIONS", Body: []byte("sentinel-body")}.Build()
 	if cs.Transport == "tcp" {
@@ -343,6 +378,9 @@ func c08Sig(cl string, cs c08Case, hostile []byte) string {
 		if cs.NoRecv {
 			return cl + "|" + cs.Transport + "|no-received|" + c08Subs()[cs.A].Name
 		}
+		if cs.After {
+			return cl + "|" + cs.Transport + "|after-request|" + c08Subs()[cs.A].Name
+		}
 		return cl + "|" + cs.Transport + "|" + c08Subs()[cs.A].Name
 	case "field2":
 		return cl + "|" + cs.Transport + "|" + c08Subs()[cs.A].Name + "+" + c08Subs()[cs.B].Name
@@ -350,6 +388,9 @@ func c08Sig(cl string, cs c08Case, hostile []byte) string {
 		return cl + "|" + cs.Transport + "|" + cs.Name
 	}
 	// byte-level edits: the field the edited offset lies in
+	if cs.After {
+		return cl + "|" + cs.Transport + "|after-request|" + cs.Kind + "@" + c08FieldAt(cs)
+	}
 	return cl + "|" + cs.Transport + "|" + cs.Kind + "@" + c08FieldAt(cs)
 }
 
@@ -418,6 +459,9 @@ func c08Run(c *Ctx) {
 			n := len(m.Render())
 			for a := 0; a <= n; a++ {
 				do(c08Case{Kind: "prefix", Corpus: ci, Transport: tr, A: a})
+				if tr == "tcp" {
+					do(c08Case{Kind: "prefix", Corpus: ci, Transport: tr, A: a, After: true})
+				}
 			}
 		}
 		// E3: every single field-level hostile substitution
@@ -425,6 +469,9 @@ func c08Run(c *Ctx) {
 			for si := range subs {
 				do(c08Case{Kind: "field", Corpus: ci, Transport: tr, A: si})
 				do(c08Case{Kind: "field", Corpus: ci, Transport: tr, A: si, NoRecv: true})
+				if tr == "tcp" {
+					do(c08Case{Kind: "field", Corpus: ci, Transport: tr, A: si, After: true})
+				}
 			}
 		}
 		// E4: size extremes
@@ -468,7 +515,7 @@ func c08Run(c *Ctx) {
 
 func init() {
 	addCheck(&Check{ID: "C08", Level: "exploration", Journal: true, MemLimit: 6 << 30, StallS: 20,
-		Rule:   "complete enumerations over a 12-message corpus (requests of every path, responses, compact forms), each case on a fresh world with backends, static routes, a learned next hop, on UDP and on TCP, followed by a sentinel request: (E1) every prefix (cut at every byte); (E2) every single-byte substitution, insertion (6-byte alphabet on 3 messages; thorough: 20-byte alphabet on all) and deletion at every offset; (E3) every field-level hostile substitution from per-field menus (Content-Length, Via sent-by, ports, missing mandatory headers, From/To/Route/Record-Route URIs, CSeq, Expires, status codes; thorough: every pair); (E4) size extremes up to 64 KiB; oracle: no panic in any proxy goroutine, no deadlock/stall, bytes allocated while handling the input <= 1 MiB + 256 x input length, the sentinel is relayed afterwards; workers run under an address-space limit with a write-ahead journal so that an unrecoverable runtime abort is attributed to its input; non-trivial = every case",
+		Rule:   "complete enumerations over a 12-message corpus (requests of every path, responses, compact forms), each case on a fresh world with backends, static routes, a learned next hop, on UDP and on TCP (TCP also: after a valid request on the same connection, whose response arrives once the hostile bytes have been handled), followed by a sentinel request: (E1) every prefix (cut at every byte); (E2) every single-byte substitution, insertion (6-byte alphabet on 3 messages; thorough: 20-byte alphabet on all) and deletion at every offset; (E3) every field-level hostile substitution from per-field menus (Content-Length, Via sent-by, ports, missing mandatory headers, From/To/Route/Record-Route URIs, CSeq, Expires, status codes; thorough: every pair); (E4) size extremes up to 64 KiB; oracle: no panic in any proxy goroutine, no deadlock/stall, bytes allocated while handling the input <= 1 MiB + 256 x input length, the sentinel is relayed afterwards; workers run under an address-space limit with a write-ahead journal so that an unrecoverable runtime abort is attributed to its input; non-trivial = every case",
 		Assume: []string{"the coverage-guided half of the quantifier (arbitrary byte strings) belongs to another family and is replaced by the bounded exhaustive spaces above", "a peer that black-holes a TCP dial is outside what the simulation can decide"},
 		Run:    c08Run,
 		JournalSig: func(raw json.RawMessage) string {
